@@ -123,7 +123,7 @@ def save_fault_point(k: int, dest_exists: bool) -> bool:
 
 NATURAL = ("unencodable", "bad_keyfile", "unknown_format", "missing_keydir", "ok_json", "ok_xml", "ok_yaml",
            "ok_bson", "ok_pickle", "xml_bad_char", "xml_bad_key", "bson_big_int", "yaml_ok_weird",
-           "formatter_returns_text", "formatter_returns_none", "missing_keydir_one_secret")
+           "formatter_returns_text", "formatter_returns_none", "missing_keydir_one_secret", "formatter_returns_view")
 
 
 @obligation(prop="C19", sites=("fault", "nofault"), encodes=ENC, stubs=("FakeFS",),
@@ -134,7 +134,7 @@ NATURAL = ("unencodable", "bad_keyfile", "unknown_format", "missing_keydir", "ok
                  "in the five real formats write exactly dumps() and load back equal")
 def save_natural_faults(case: int, dest_exists: bool) -> bool:
     """
-    pre: 0 <= case < 16
+    pre: 0 <= case < 17
     post: _
     """
     name = NATURAL[0]
@@ -181,6 +181,8 @@ def save_natural_faults(case: int, dest_exists: bool) -> bool:
             # a registered format whose dumps() does not produce bytes: the last serialisation step fails
             from cincoconfig.core import ConfigFormat
             product = "<text/>" if name.endswith("text") else None
+            if name.endswith("view"):
+                product = memoryview(b"a-b-c-d-")[::2]      # bytes-like, but not contiguous: cannot be written as is
 
             class _TextFormat(ConfigFormat):
                 def __init__(self, **kw):
@@ -203,6 +205,14 @@ def save_natural_faults(case: int, dest_exists: bool) -> bool:
         wrote = [m for p, m in fs.opens[opens_before:] if p == DEST and ("w" in m or "a" in m or "+" in m)]
         if name == "yaml_ok_weird":
             name = "ok_yaml"
+        if name == "formatter_returns_view":
+            # bytes-like content that cannot be written as it is: either the save fails BEFORE touching the
+            # destination, or it writes exactly those bytes
+            if raised is None:
+                return hold("nofault", bytes(fs.files.get(DEST)) == b"abcd", "written bytes differ from the formatter's output")
+            hold("fault", not wrote and fs.files.get(DEST) == (OLD if dest_exists else None),
+                 "destination truncated although the content could not be written")
+            return True
         if name.startswith("ok_"):
             hold("nofault", raised is None, lambda: "save failed: %r" % (raised,))
             content = fs.files.get(DEST)
